@@ -433,7 +433,9 @@ Definition h_bankruptcy (w : hworld) (a b : nat) : res hworld :=
 Definition E_ACCOUNT_BORROW_FAILED : err := E (-3).
 
 (* lending_account_liquidate (classic liquidation) *)
-Definition h_liquidate (w : hworld) (liqor liqee ab lb : nat) (amount : Z) : res hworld :=
+(* `load` = how the risk engine obtains the liquidatee's positions (Handlers.positions with the risk accounts the caller
+   passed; positions_norem when the caller passed none) *)
+Definition h_liquidate_gen (load : hworld -> laccount -> res (list rpos)) (w : hworld) (liqor liqee ab lb : nat) (amount : Z) : res hworld :=
   let* ha := nth_bank w ab in let* hl := nth_bank w lb in
   (* account constraint on the liability bank: evaluated by Anchor before the handler body *)
   let* _ := check (is_marginfi_tag (b_asset_tag (hb_b hl))) (E E_WrongAssetTagForStandardInstructions) in
@@ -455,7 +457,7 @@ Definition h_liquidate (w : hworld) (liqor liqee ab lb : nat) (amount : Z) : res
   let ee1 := sort_acct ee in
   let w := put_hacct w liqee ee1 in
   let* _ := check (negb (aflag ee1 ACCOUNT_IN_FLASHLOAN)) (E E_AccountInFlashloan) in
-  let* ps := positions w (ha_la ee1) in
+  let* ps := load w (ha_la ee1) in
   let* (pre_health, _, _) := pre_liquidation ps (Some (bank_pk lb)) false in
   let* _ := fd_load (hb_feed ha) in
   let* ap := fd_low_rt (hb_feed ha) in
@@ -512,12 +514,22 @@ Definition h_liquidate (w : hworld) (liqor liqee ab lb : nat) (amount : Z) : res
   let w := put_hacct (put_hacct w liqee ee3) liqor er2 in
   (* post checks *)
   let* _ := check (negb (aflag ee3 ACCOUNT_IN_FLASHLOAN)) (E E_AccountInFlashloan) in
-  let* ps2 := positions w (ha_la ee3) in
+  let* ps2 := load w (ha_la ee3) in
   let* _ := post_liquidation ps2 (bank_pk lb) pre_health in
   let er3 := sort_acct er2 in
   let w := put_hacct w liqor er3 in
   let* _ := init_health_check w er3 in
   Ok w.
+
+Definition h_liquidate (w : hworld) (liqor liqee ab lb : nat) (amount : Z) : res hworld :=
+  h_liquidate_gen positions w liqor liqee ab lb amount.
+
+(* the liquidation instruction sent WITHOUT the risk (bank / oracle) accounts of either party: the engine cannot load the
+   liquidatee's first active balance *)
+Definition positions_norem (w : hworld) (la : laccount) : res (list rpos) :=
+  if existsb bl_active la then Err (E E_InvalidBankAccount) else Ok [].
+Definition h_liquidate_norem (w : hworld) (liqor liqee ab lb : nat) (amount : Z) : res hworld :=
+  h_liquidate_gen positions_norem w liqor liqee ab lb amount.
 
 (* ---------------------------------------------------------------------------------------------
    operations of the level-C suite `hops` *)
